@@ -23,7 +23,7 @@ RULE = ("(a) cell sweep: every operation/assertion x operand-type combination x 
 HUGE = ["pow", 3, 16384]       # 7817 decimal digits, decoded by ir.Machine._make_input
 FALSE_MODES = ["guard0", "guard10", "guard01", "guard00"]
 TRUE_MODES = ["guard1", "guard11"]
-SKIP_OPS = {"val", "ggh", "permute", "poseidon", "poseidon1", "pos", "fmt"}
+SKIP_OPS = {"val", "snark_chain", "ggh", "permute", "poseidon", "poseidon1", "pos", "fmt"}      # snark_chain reads values back with val()
 
 
 def outcome(m, nargs):
